@@ -31,6 +31,11 @@ Theorem C14_datetime_roundtrip : forall t, year_ok t ->
   exists s, format_ts DateTime t = Some s /\ parse_ts DateTime s = Some (truncate_ts DateTime t).
 Proof. exact datetime_roundtrip. Qed.
 Print Assumptions C14_datetime_roundtrip.
+(* the same for the http-date format (every timestamp header: Last-Modified, Expires, If-Modified-Since ...), truncated to seconds *)
+Theorem C14_httpdate_roundtrip : forall t, year_ok t ->
+  exists s, format_ts HttpDate t = Some s /\ parse_ts HttpDate s = Some (truncate_ts HttpDate t).
+Proof. exact httpdate_roundtrip. Qed.
+Print Assumptions C14_httpdate_roundtrip.
 Theorem C14_calendar_bijection : forall z,
   let '(y, m, d) := civil_from_days z in days_from_civil y m d = z /\ valid_date y m d = true.
 Proof. intros z. pose proof (days_civil_days z) as H1. pose proof (civil_valid z) as H2. destruct (civil_from_days z) as [[y m] d]. split; assumption. Qed.
